@@ -227,12 +227,17 @@ FE_PARTS = {
 
 def fe_relevant(pid, diff):
     """does a front-end (T1) mismatch touch what property pid's theorems consume?"""
+    v, mv = diff.get('verdict'), diff.get('model_verdict')
+    if v != mv:
+        # a disagreement on the verdict: a definition the rules refuse is expanded (C13), or a definition
+        # the rules admit is refused (C14); no machine exists on one side, so nothing else is touched
+        if mv == 'ok':
+            return pid == 'C14'
+        return pid == 'C13'
     if pid in ('C18', 'C14'):
         return True     # these consume the whole front end
     parts = diff.get('fe_parts') or ['<missing>']
-    if diff.get('stream') == 'mut' and (set(parts) <= {'PARSE', 'VALIDATE', 'EXPAND'} or
-                                        diff.get('verdict') != diff.get('model_verdict')):
-        # model and implementation disagree on the verdict / diagnostic of an ill-formed definition
+    if diff.get('stream') == 'mut' and set(parts) <= {'PARSE', 'VALIDATE', 'EXPAND'}:
         return pid == 'C13'
 
     for part in parts:
